@@ -6,6 +6,7 @@ exit 2: undecided (an obligation neither solver decides and the bounded layer fo
 exit 3: the machinery itself failed (never a verdict)
 """
 import argparse
+import fnmatch
 import importlib
 import json
 import multiprocessing
@@ -125,6 +126,8 @@ def proof_layer(pid, spec, tier):
     for path, k in W.contracts.items():
         if getattr(k, 'inline', False) and not getattr(k, 'also_verify', False):
             continue
+        if getattr(k, 'stub', False):
+            continue        # assumed frame of a function specified elsewhere / not yet under proof: listed as trusted
         if pid in k.props:
             jobs.append((k.__module__, path, pid, tier))
     ljobs = [('contracts.' + m, pid) for m in spec.get('contracts', [])]
@@ -264,10 +267,11 @@ def main():
         if key in seen_sig:
             continue
         seen_sig.add(key)
-        hit = [k for k in known if k['key'] == key]
+        hit = [k for k in known if fnmatch.fnmatchcase(key, k['key'])]
         if hit:
-            known_hit.append(key)
-            lines.append('KNOWN-FINDING: property=%s %s' % (a.pid, hit[0]['what']))
+            if hit[0]['key'] not in known_hit:
+                known_hit.append(hit[0]['key'])
+                lines.append('KNOWN-FINDING: property=%s %s' % (a.pid, hit[0]['what']))
             continue
         nviol += 1
         path = _write_replay(a.pid, key, {'kind': 'bounded', 'harness': bounded.get('module'), 'violation': v})
@@ -278,7 +282,7 @@ def main():
         groups.setdefault(_stable(r['name']), []).append((kind, fn, r))
     for name, items in groups.items():
         key = 'obligation:%s' % name
-        hit = [k for k in known if k['key'] == key]
+        hit = [k for k in known if fnmatch.fnmatchcase(key, k['key'])]
         if hit:
             known_hit.append(key)
             lines.append('KNOWN-FINDING: property=%s %s' % (a.pid, hit[0]['what']))
